@@ -41,10 +41,10 @@ def gen_W(rng, maxops=20):
         elif r < 0.36:
             i = rng.randint(0, hi + 1)
             ops.append("set:%d:%d" % (i, rng.randint(-9, 99))); ln = ln if fixed else max(ln, i + 1)
-        elif r < 0.38:
+        elif r < 0.395:
             i = rng.randint(0, hi + 1)
             ops.append("bad:%d" % i); ln = ln if fixed else max(ln, i + 1)
-        elif r < 0.40:
+        elif r < 0.41:
             i = rng.randint(0, hi + 1)
             ops.append("def:%d:%d" % (i, rng.randint(500, 599))); ln = ln if fixed else max(ln, i + 1)
         elif r < 0.47:
